@@ -348,3 +348,32 @@ def path_norm(p):
 
 def path_key(p, s):
     return '/'.join((p, s))
+
+
+# ---- typed values (container tags) and the table contracts that mention them ----
+def is_list(v):
+    return isinstance(v, list)
+
+
+def is_dict(v):
+    return isinstance(v, dict)
+
+
+def is_str(v):
+    return isinstance(v, str)
+
+
+def as_list(v):
+    return v
+
+
+def of_list(s):
+    return s
+
+
+def diffable(v, w):
+    return (is_list(v) and is_list(w)) or (is_dict(v) and is_dict(w)) or (is_str(v) and is_str(w))
+
+
+def any_cmp(F, x, y):
+    return any(f(x, y) for f in F)
